@@ -280,9 +280,10 @@ def hash_str(s):
 
 CTX_KINDS = ['top', 'nested', 'closure', 'lc', 'arm', 'catch', 'if', 'while', 'forin', 'block']
 
-# signatures of known findings: rule + context-independent description
+# signatures of known findings: rule + context-independent description.
+# (`call_kind_inner_fn` — function-typed parameter of a function-typed parameter — was a known accept of the
+# pinned tree; repaired in /repo 186dfd9, so an ACCEPTED mutant of that rule is an ordinary VIOLATION again.)
 KNOWN = {
-    'call_kind_inner_fn': "accept:call_kind:function-typed parameter of a function-typed parameter, result kind not compared (param_cmp passes param_one->func.ret twice)",
     'match_empty': "accept:match_missing:empty guard list `match e { }` is never checked for exhaustiveness",
 }
 
